@@ -1,5 +1,6 @@
 import os
 import gzip
+import signal
 import logging
 import pysyncobj.pickle as pickle
 
@@ -194,6 +195,7 @@ class Serializer(object):
         if isLast:
             self.__incomingTransmissionFile.close()
             self.__incomingTransmissionFile = None
+            self.__stopSerializing()
             try:
                 atomicReplace(tmpFile, self.__fileName)
             except:
@@ -201,6 +203,17 @@ class Serializer(object):
                 return False
             return True
         return False
+
+    def __stopSerializing(self):
+        # A dump child that is still writing holds an older state than the snapshot just received:
+        # it must not get to rename its file over it.
+        if self.__useFork and self.__serializeChecker is None and self.__pid > 0:
+            try:
+                os.kill(self.__pid, signal.SIGKILL)
+                os.waitpid(self.__pid, 0)
+            except OSError:
+                pass
+            self.__pid = 0
 
     def cancelTransmisstion(self, id):
         self.__transmissions.pop(id, None)
